@@ -507,7 +507,11 @@ def check_heap(rep, repo: Repo, pre: str = "") -> None:
         w = SP[("go_down", pol)]
         w = substitute_view(w, derived_phis(w))  # `left` carried next to `i` as left_son(i)
         hole = None
-        if pol in hole_down:
+        raw0 = SP[("go_down", pol)]
+        pname = next((a for a in raw0.entry.params if a != "self"), None)
+        held_swap = [e for e in raw0.events if e.kind == "store" and e.loops and e.target[0] == "idx" and e.target[1] == P
+                     and pname is not None and deep_strip(e.value) == ("idx", P, ("param", pname))]
+        if pol in hole_down or held_swap:
             # hole form: the element taken from the start position is held aside (`node`, `key = cost[node]`) and is, in
             # effect, the occupant of the hole at the current position i.  The view says exactly that: comparisons with
             # the held key read cost[p[i]], and a running `best` cost selected arm by arm is the cost at the selected position
@@ -515,16 +519,22 @@ def check_heap(rep, repo: Repo, pre: str = "") -> None:
             import types
             from .ir import plug_back
             raw = SP[("go_down", pol)]
-            shifts, final = hole_down[pol]
+            # (held-swap form: the element taken from the start position is exchanged level by level, `p[i], p[j] = p[j], node`;
+            #  it is the occupant of the current position i by the same argument, and the ordinary swap rules decide the view)
+            shifts, final = hole_down[pol] if pol in hole_down else (held_swap, [])
             lh = raw.loops[shifts[0].loops[-1]]
             iname = raw.entry.params[1]
             Ih = ("phi", lh.lid, iname)
             keyt = ("idx", COST, ("idx", P, ("param", iname)))
+            heldt = ("idx", P, ("param", iname))
 
             def V(t):
                 if t is None:
                     return None
-                return lift(plug_back(deep_strip(t), keyt, ("idx", COST, ("idx", P, Ih))))
+                t = plug_back(deep_strip(t), keyt, ("idx", COST, ("idx", P, Ih)))
+                if pol not in hole_down:
+                    t = plug_back(t, heldt, ("idx", P, Ih))
+                return lift(t)
             view = types.SimpleNamespace(entry=w.entry, repo=w.repo, guard_src=dict(w.guard_src), binop=w.binop,
                                          old_cause=getattr(w, "old_cause", {}), inlined=getattr(w, "inlined", []))
             view.events = [dataclasses.replace(
@@ -536,7 +546,7 @@ def check_heap(rep, repo: Repo, pre: str = "") -> None:
             for g, src in list(w.guard_src.items()):
                 view.guard_src.setdefault(V(g), src)
             w = view
-            hole = (shifts, final, Ih, lh)
+            hole = (shifts, final, Ih, lh) if pol in hole_down else None
         # child selections: binds whose value is left_son(I) / right_son(I) (or 2I+1 / 2I+2) under a cost test
         cands = []
         for e in w.events:
@@ -571,6 +581,29 @@ def check_heap(rep, repo: Repo, pre: str = "") -> None:
         ok_same = second[2] == I
         rep.fn(pre + "H3-down-children", w.entry, f"both children are children of the same position  [{pol}]",
                ok_same, "left and right child are computed from different positions")
+        # a test of the position against `last` that dominates the first child's selection restricts the walk; it may only say
+        # that the position has a left child (2 * i + 1 <= last) or something weaker (i < last, i <= last) - for the current
+        # position and, in the loop form, for the start position tested before the descent
+        dl = deep_strip(LAST)
+        for posn in ([deep_strip(I)] + ([("param", w.entry.params[-1])] if I[0] == "phi" else [])):
+            want = lin(("bin", "-", ("bin", "+", ("bin", "*", ("const", 2), posn), ("const", 1)), dl))
+            weaker = [{posn: 1, dl: -1, 1: 1}, {posn: 1, dl: -1, 1: 0}]
+            for c in facts(first[0].guards):
+                c = deep_strip(c)
+                if c[0] != "cmp" or c[1] not in ("<", "<=", ">", ">="):
+                    continue
+                x, y = (c[2], c[3]) if c[1] in ("<", "<=") else (c[3], c[2])
+                have = lin(("bin", "-", x, y))
+                if have is None or set(k for k in have if k != 1 and have[k] != 0) != {posn, dl}:
+                    continue
+                if c[1] in ("<", ">"):
+                    have = dict(have)
+                    have[1] = have.get(1, 0) + 1
+                oke = lin_eq(have, want) or any(lin_eq(have, wk) for wk in weaker)
+                rep.fn(pre + "H3-down-entry", w.entry, f"test of a position against `last` before its children are compared: "
+                       f"{show(c)[:80]}  [{pol}]", oke,
+                       "an exit taken before the children are compared must leave exactly the positions without a left child "
+                       "(2 * i + 1 > last): this one also skips positions whose only child is the last element")
         for (e, child, cur, which) in (first, second):
             cs = list(facts(e.guards))
             bound = [c for c in cs if c[0] == "cmp" and (
@@ -583,6 +616,21 @@ def check_heap(rep, repo: Repo, pre: str = "") -> None:
                           ("bin", "//", ("bin", "+", ("const", 1), LAST), ("const", 2))]
                 bound = [c for c in cs if c[0] == "cmp" and c[1] == "<" and strip_old(c[2]) == cur
                          and deep_strip(c[3]) in [deep_strip(h) for h in halves]]
+            if not bound:
+                # the same bound in another integer spelling: `left < last` is `left + 1 <= last` (right = left + 1)
+                want = lin(("bin", "-", deep_strip(child), deep_strip(LAST)))
+                for c in cs:
+                    if c[0] != "cmp" or c[1] not in ("<", "<=", ">", ">="):
+                        continue
+                    x, y = (c[2], c[3]) if c[1] in ("<", "<=") else (c[3], c[2])
+                    have = lin(("bin", "-", deep_strip(x), deep_strip(y)))
+                    if have is None or want is None:
+                        continue
+                    if c[1] in ("<", ">"):
+                        have = dict(have)
+                        have[1] = have.get(1, 0) + 1
+                    if lin_eq(have, want):
+                        bound.append(c)
             g_last = e.guards[-1][0]
             src = w.guard_src.get(g_last)
             text = src[1] if src else e.text()
